@@ -121,7 +121,7 @@ func recorderFileOps(w *World) (*ssa.Function, []fileOp) {
 }
 
 func propC10(w *World, r *Report) {
-	r.Explanation = "Decided clause: (D1) every file created on behalf of a recording (by CPTVFileRecorder.StartRecording and, through it, by go-cptv's writer: the output file and its .tmp scratch file) has a name whose constant suffix does not end in '.cptv'; (D2) the only operation in the recorder that gives a file a '.cptv' name is the os.Rename of the stop path, whose source is the open writer's own name and whose target is that name with the constant regexp stripping '.temp', and on every path it is preceded by the writer's Close (which compresses, closes and deletes the scratch file); (D3) the recorder's writer field is set only by a fully successful start, is cleared by every stop, Stop() (connection loss) closes and removes the temporary file and is deferred right after construction; (D4) runMain runs the start-up clean-up on OutputDir before the first connection is handled and, when its error is not nil, returns it; (D5) coverage: for every creation suffix and every creation directory some glob removed by the clean-up matches it, a failing removal is returned, and nothing but a non-nil error leaves the clean-up's loops early. Rule: file-name suffix abstract domain (constant suffixes through +, Join, time.Format, Sprintf, constant regexp replacement) + dominator/ordering analysis."
+	r.Explanation = "Decided clause: (D1) every file created on behalf of a recording (by CPTVFileRecorder.StartRecording and, through it, by go-cptv's writer: the output file and its .tmp scratch file) has a name whose constant suffix does not end in '.cptv'; (D2) the only operation in the recorder that gives a file a '.cptv' name is the os.Rename of the stop path, whose source is the open writer's own name and whose target is that name with the constant regexp stripping '.temp', and on every path it is preceded by the writer's Close (which compresses, closes and deletes the scratch file); (D3) the recorder's writer field is set only by a fully successful start, is cleared by every stop, Stop() (connection loss) closes and removes the temporary file and is deferred right after construction; (D4) runMain runs the start-up clean-up on OutputDir before the first connection is handled and, when its error is not nil, returns it; (D5) coverage: for every creation suffix and every creation directory some glob removed by the clean-up matches it, a failing removal is returned, and nothing but a non-nil error leaves the clean-up's loops early. Rule: file-name suffix abstract domain (constant suffixes through +, Join, time.Format, Sprintf, constant regexp replacement) + dominator/ordering analysis. Also (D2, linked from C16.R1) no field of the file recorder is shared between goroutines."
 	r.RuleText = "obligation per (rule, file operation / path)"
 	r.Assumptions = []string{"decodability of file contents, rename atomicity and power-loss durability are not decided (the statement excludes power loss)",
 		"filepath.Glob/Match semantics (standard library); the temporary name is '<timestamp>' + constant tail, the stem contains no path separator"}
@@ -586,6 +586,13 @@ func propC10(w *World, r *Report) {
 	linkObligations(w, r, propC17, "C17", func(o *Obligation) bool {
 		return o.Rule == "C17.V5" && strings.Contains(o.Construct, "constant-recorder mode is set once")
 	}, "D5")
+	// close-then-rename acts on the writer that was closed only while nothing else replaces it meanwhile: the file
+	// recorder has no lock, so its state must stay with one goroutine (a stop handed to a goroutine of its own overlaps
+	// the next start and renames the new, empty temporary file to the final name). C16.R1 has an obligation for a field of
+	// the recorder only when it became shared between goroutines: finding none is the good case.
+	linkObligationsOpt(w, r, propC16, "C16", func(o *Obligation) bool {
+		return o.Rule == "C16.R1" && strings.Contains(o.Construct, "location=CPTVFileRecorder.")
+	}, "D2")
 }
 
 func instrIndex(in ssa.Instruction) int {
